@@ -336,9 +336,6 @@ def apply_contract(I, con, args, kwargs, fi=None, callee_label=None):
         ctx.ghost["nondet"] = True  # the callee's outcome is chosen by its contract, not computed
     bound = bind_contract_params(I, con, args, kwargs, fi)
     # shapes of parameters are part of the precondition
-    old_heap = ctx.snapshot()
-    spec = Spec(ctx, old_heap, old_heap)
-    _attach_trace(spec, ctx, ctx.trlen)
     typed_bound = {}
     for k, v in bound.items():
         pty = con.params.get(k) or con.params.get("*" + k) or con.params.get("**" + k)
@@ -352,6 +349,9 @@ def apply_contract(I, con, args, kwargs, fi=None, callee_label=None):
             typed_bound[k] = SV(sv.t, pty)
         else:
             typed_bound[k] = v
+    old_heap = ctx.snapshot()   # taken after argument displays have been materialised as heap sequences
+    spec = Spec(ctx, old_heap, old_heap)
+    _attach_trace(spec, ctx, ctx.trlen)
     views = views_of(spec, typed_bound, old_heap)
     for lab, f in eval_clause(con.requires, spec, views).items():
         ctx.oblige("%s/requires[%s]" % (short(label), lab), f, kind="pre")
